@@ -24,6 +24,6 @@ package httproto
 //@   property C06
 //@   flags libframe
 //@   requires bb != nil && !h.printMessage
-//@   modifies bb.B, ghost.maxAlloc, msgUser(as(m, type(*socket.message))), as(m, type(*socket.message)).seq, as(m, type(*socket.message)).mtype, ghost.appendFailed
+//@   modifies bb.B, ghost.maxAlloc, as(m, type(*socket.message)).bodyCodec, fields(as(m, type(*socket.message)).meta), allelems(type(utils.argsKV)), as(m, type(*socket.message)).xferPipe.filters, allelems(type(xfer.XferFilter)), as(m, type(*socket.message)).seq, as(m, type(*socket.message)).mtype, ghost.appendFailed
 //@   ensures[body-within-limit] ghost.maxAlloc <= old(ghost.maxAlloc) || ghost.maxAlloc <= socket.messageSizeLimit + 1
 //@   loop 0: invariant[within-limit] ghost.maxAlloc <= old(ghost.maxAlloc) || ghost.maxAlloc <= socket.messageSizeLimit + 1
